@@ -95,7 +95,8 @@ var layoutEnumBases = [][]string{
 	{"S1F1", "W", "<", "A", "[", "1", "..", "]", "str", ">", ".", "S1F1", "<", "U2", "a", "...", ">", "."},
 	{"S1F1", "W", "H->E", "Lot/Wafer", "<", "U1", "5", ">", ".", "S5F1", "a/b/", ".", "S5F3", "/x", "<", "L", ">", ".", "S5F5", "W", "x/y/z", "."},
 }
-var layoutEnumSeps = []string{"", "  ", "\t", "\n", "\r\n", "\r", " \n\t ", " //c\n", "//c\r\n", " // é <L \"\n", "\n\n// . S9F9\n", "\v", " "}
+var layoutEnumSeps = []string{"", "  ", "\t", "\n", "\r\n", "\r", " \n\t ", " //c\n", "//c\r\n", " // é <L \"\n", "\n\n// . S9F9\n", "\v",
+	"\u00a0", "\u2003\u2003", " \u0085"} // white space of two and three bytes (the header skips it, the message text does not)
 
 func driverLayoutEnum(c *Ctx) {
 	bases := append([][]string{}, layoutEnumBases...)
@@ -108,6 +109,14 @@ func driverLayoutEnum(c *Ctx) {
 		if c.want(idx) {
 			c.emit(idx, J{"ev": "layout", "family": family, "r1": parseEvent(t1), "r2": parseEvent(t2)})
 			c.count("layoutenum." + family)
+		}
+	}
+	// a message name ending in (or holding) each printable ASCII character, with a comment attached directly behind it
+	for ch := 33; ch < 127; ch++ {
+		for _, name := range []string{"N" + string(rune(ch)), "N" + string(rune(ch)) + "x", "Nm" + string(rune(ch)) + string(rune(ch))} {
+			for _, tail := range []string{"\n<U1 5> .", "\n."} {
+				one("S1F1 W H->E "+name+tail, "S1F1 W H->E "+name+"//c d <L>"+tail, "name-comment")
+			}
 		}
 	}
 	for _, toks := range bases {
